@@ -460,6 +460,12 @@ def op_meta(art):
                      pad_bottom=int(pad[2]), cascade=int(casc),
                      ifm_shape=list(cmd.ps.ifm_shapes[0].as_list()) if cmd.ps.ifm_shapes else None,
                      ofm_box=[list(map(int, cmd.ofm_box.start_coord)), list(map(int, cmd.ofm_box.end_coord))])
+            # facts for the exact condition of the cascade rolling-buffer defect (c10_lib.rolling_defect)
+            skirt = op.attrs.get("skirt", None)
+            ss = cmd.ifm_tensor.storage_shape
+            m.update(skirt_top=int(skirt[0]) if skirt is not None else None, skirt_bottom=int(skirt[2]) if skirt is not None else None,
+                     ifm_storage_h=int(ss[1]) if len(ss) == 4 else None, ps_id=id(cmd.ps),
+                     ifm_eq=str(cmd.ifm_tensor.equivalence_id), ofm_eq=str(cmd.ofm_tensor.equivalence_id))
         metas.append(m)
     return metas
 
